@@ -679,3 +679,59 @@ func init() {
 		},
 	})
 }
+
+func init() {
+	register(&Rule{
+		Name: "request-fields-sent-once", Props: []string{"C02"}, Engine: "AST", Floor: 3,
+		Doc: "the header block of a request names each thing once: the four leading fields (:method, :path, :scheme, then user-agent) are each set on the scratch field and appended before the loop over the request's own header, that loop passes over user-agent (which has gone out already), lower-cases every name it sends and leaves out the connection-specific ones",
+		Run: func(p *Prog, r *Out) {
+			fd := p.decl("(*Conn).writeRequest")
+			if fd == nil {
+				r.undecided("writeRequest", "?", "no longer resolves")
+				return
+			}
+			r.fn("(*Conn).writeRequest")
+			t := stmtTexts(p, fd.Body.List)
+			want := []string{"hf.SetBytes(StringMethod,req.Header.Method())", "hf.SetBytes(StringPath,req.URI().RequestURI())", "hf.SetBytes(StringScheme,req.URI().Scheme())", "hf.SetBytes(StringUserAgent,req.Header.UserAgent())"}
+			at := -1
+			okLead := true
+			for _, w := range want {
+				found := -1
+				for i, x := range t {
+					if x == w && i > at {
+						found = i
+						break
+					}
+				}
+				if found < 0 || found+1 >= len(t) || t[found+1] != "enc.AppendHeaderField(h,hf,true)" {
+					okLead = false
+					break
+				}
+				at = found
+			}
+			var loop *ast.RangeStmt
+			for i, s := range fd.Body.List {
+				if rs, ok := s.(*ast.RangeStmt); ok && squash(p.text(rs.X)) == "req.Header.All()" && i > at {
+					loop = rs
+				}
+			}
+			r.check(okLead && loop != nil, "the four leading fields are each set and appended, in order, before the rest", p.pos(fd.Pos()), ":method, :path, :scheme, user-agent: hf.SetBytes(...); enc.AppendHeaderField(h, hf, true)", "writeRequest no longer sets and appends :method, :path, :scheme and user-agent, each once and in that order, ahead of the request's other fields: a pseudo-header is missing or comes after a regular field (a malformed request), or the field before it is sent twice in its place")
+			if loop == nil {
+				r.bad("the loop over the request's header", p.pos(fd.Pos()), "no `for k, v := range req.Header.All()` after the leading fields")
+				return
+			}
+			lt := stmtTexts(p, loop.Body.List)
+			has := func(w string) int {
+				for i, x := range lt {
+					if x == w {
+						return i
+					}
+				}
+				return -1
+			}
+			skip, set, low, conn, app := has("ifbytes.EqualFold(k,StringUserAgent){continue}"), has("hf.SetBytes(k,v)"), has("ToLower(hf.key)"), has("ifisConnectionSpecific(hf.key){continue}"), has("enc.AppendHeaderField(h,hf,false)")
+			r.check(skip >= 0 && set > skip && low > set && conn > low && app > conn, "the rest goes out lower-cased, without user-agent again and without connection-specific fields", p.pos(loop.Pos()), "skip user-agent; hf.SetBytes(k, v); ToLower(hf.key); skip connection-specific; append", "the loop over the request's header no longer passes over user-agent (sent already: it would go out twice), lower-cases the name it is about to send (an upper-case name is a malformed request), and leaves out connection-specific fields, in that order before the append")
+			r.check(skip >= 0, "user-agent is not sent a second time", p.pos(loop.Pos()), "if bytes.EqualFold(k, StringUserAgent) { continue }", "the loop over the request's header sends user-agent again after the leading fields have sent it")
+		},
+	})
+}
